@@ -44,6 +44,27 @@ def errs_without_columns(errs):
     return [(l, PREFIX.sub(lambda m: "(%s:_): " % m.group(1), m_)) for l, c, m_ in errs]
 
 
+def shift_columns(x, lines, k):
+    """columns of everything located on one of `lines` reduced by k (undoing an indentation of k characters)"""
+    if isinstance(x, dict):
+        if "line" in x and "column" in x and set(x) <= {"line", "column"}:
+            return {"line": x["line"], "column": x["column"] - k} if x["line"] in lines else x
+        return {kk: shift_columns(v, lines, k) for kk, v in x.items()}
+    if isinstance(x, list):
+        return [shift_columns(v, lines, k) for v in x]
+    return x
+
+
+def shift_err_columns(errs, lines, k):
+    out = []
+    for l, c, m_ in errs:
+        if l in lines and c is not None:
+            m_ = PREFIX.sub(lambda m: "(%s:%d): " % (m.group(1), int(m.group(2)) - k), m_)
+            c = c - k
+        out.append((l, c, m_))
+    return out
+
+
 def renumber(x, f):
     if isinstance(x, dict):
         return {k: (f(v) if k == "line" else renumber(v, f)) for k, v in x.items()}
@@ -150,7 +171,15 @@ def check_layout(case, stats):
             pre = sel.choice([" ", "  ", "\t", "    "])
             t4 = join([(pre + b if i + 1 in chosen else b) for i, b in enumerate(body)])
             touched = max(touched, len(chosen))
-            same(case, "T4 indenting lines %r further" % sorted(chosen)[:6], base, outcome(t4, dflt), proj=drop_columns, projerr=errs_without_columns)
+            o4 = outcome(t4, dflt)
+            same(case, "T4 indenting lines %r further" % sorted(chosen)[:6], base, o4, proj=drop_columns, projerr=errs_without_columns)
+            # and the columns on the indented lines move by exactly the added indentation (nothing else moves);
+            # comments are whole lines at column 1 and are not among the indented lines
+            if base["ok"]:
+                back = shift_columns(o4["ast"], chosen, len(pre))
+                if back != base["ast"]:
+                    raise Violation(case, "T4 indenting lines %r by %d: columns do not move by exactly that amount, %s" % (
+                        sorted(chosen)[:6], len(pre), diff_text(back, base["ast"], "transformed minus indentation", "original")))
     # T5 / T6 inserted blank / comment lines
     for what, filler in (("T5 inserting a blank line", ["", "  ", "\t"]), ("T6 inserting a comment line", [COMMENT])):
         if what.startswith("T5"):
